@@ -486,3 +486,101 @@ class FactorAndRemoveNumber(Contract):
         q = vc.fresh_real("num_over_number")
         vc.assume(q * term(n) == e.f["v"])
         return Struct("NumExpr", v=q, state=vc.fresh("numstate", NumS), isnum=None, iszero=None)
+
+
+# --- denom_eri_sym: common symmetry of remainder and denominator ------------------------------
+# The symmetry of the remainder is requested with the caller's restrictions (permute_num asks for
+# permutations of CONTRACTED indices only - a permutation of target indices would change the
+# value of the symmetrised numerator) in every branch; a permutation is reported with
+# factor * (+1 | -1) iff it maps the denominator onto +- itself and with None otherwise.
+EOK = "adcgen.eri_orbenergy:EriOrbenergy"
+DVAL = z3.Function("denominator_value_after", z3.IntSort(), z3.RealSort())   # permutation id (0: none)
+
+
+def _sym_request(ip, obj, args, kwargs):
+    vc = ip.vc
+    st = vc.ghost["_des"]
+    want = st["kwargs"]
+    same = set(kwargs) == set(want) and all(kwargs[k] is want[k] or kwargs[k] == want[k] for k in want)
+    vc.check("symmetry#remainder-symmetry-is-requested-with-the-callers-restrictions", bool(same) and not args)
+    return st["eri_sym"]
+
+
+C.STRUCT_METHODS[("EriPartV", "symmetry")] = _sym_request
+C.STRUCT_METHODS[("DenomPartV", "copy")] = lambda ip, o, a, k: o
+C.STRUCT_METHODS[("DenomPartV", "permute")] = lambda ip, o, a, k: Struct(
+    "DenomPartV", sympy=Struct("DenomVal", pid=int(a[0][4:]) if a else 0), is_number=o.f["is_number"])
+
+
+def _denomval_arith(ip, opn, a, b):
+    """denom +- permuted denom: only its vanishing is looked at"""
+    if opn not in ("Add", "Sub") or not all(isinstance(x, Struct) and x.cls == "DenomVal" for x in (a, b)):
+        raise Unsupported("arithmetic on the denominator value")
+    va, vb = DVAL(a.f["pid"]), DVAL(b.f["pid"])
+    return Struct("DenomCombo", val=va + vb if opn == "Add" else va - vb)
+
+
+def _is_zero(ip, a, b):
+    from sympy import S as _S  # noqa: F401
+    for x, y in ((a, b), (b, a)):
+        if isinstance(x, Struct) and x.cls == "DenomCombo":
+            return x.f["val"] == 0
+        if isinstance(x, Struct) and x.cls == "DenomVal":
+            return DVAL(x.f["pid"]) == 0
+    return a is b
+
+
+C.STRUCT_ARITH["DenomVal"] = _denomval_arith
+C.STRUCT_IS["DenomCombo"] = _is_zero
+C.STRUCT_IS["DenomVal"] = _is_zero
+C.STRUCT_ATTR[("DenomVal", "is_number")] = lambda ip, o: False
+
+
+@register
+class DenomEriSym(Contract):
+    key = EOK + ".denom_eri_sym"
+    props = ["C13"]
+    CASES = [(num, given, nperm, kw) for num in (False, True) for given in (False, True)
+             for nperm in (0, 1, 2) for kw in (False, True)]
+    split_first_choice = len(CASES)
+
+    def setup(self, vc):
+        numeric, given, nperm, kw = self.CASES[vc.choose(len(self.CASES), "case")]
+        perms = [(f"perm{k + 1}",) for k in range(nperm)]      # opaque permutation products
+        factors = [[1, -1][vc.choose(2, "factor")] for _ in range(nperm)]
+        sym = PDict(dict(zip(perms, factors)))
+        kwargs = {"only_contracted": True} if kw else {}
+        dval = Struct("DenomVal", pid=0)
+        C.STRUCT_ATTR[("DenomVal", "is_number")] = lambda ip, o: numeric
+        denom = Struct("DenomPartV", sympy=dval, is_number=numeric)
+        eri = Struct("EriPartV", idx=(1,))
+        vc.ghost["_des"] = {"kwargs": kwargs, "eri_sym": sym, "perms": perms, "factors": factors,
+                            "numeric": numeric, "given": given}
+        return {"self": Inst(EOK, {"denom": denom, "eri": eri}), "eri_sym": sym if given else None,
+                "kwargs": PDict(dict(kwargs))}
+
+    def bind(self, vc, args, kwargs, interp):
+        return Contract.bind(self, vc, args, kwargs, interp)
+
+    def post(self, vc, a, result):
+        st = vc.ghost["_des"]
+        if st["numeric"]:
+            return [("numeric-denominator:the-symmetry-of-the-remainder-itself", result is st["eri_sym"])]
+        if not isinstance(result, PDict):
+            return [("returns-a-dict-over-the-permutations", False)]
+        out = [("one-entry-per-permutation-of-the-remainder",
+                set(result.d.keys()) <= set(st["perms"]))]
+        d0 = DVAL(0)
+        for p, f in zip(st["perms"], st["factors"]):
+            dp = DVAL(int(p[0][4:]))
+            if p not in result.d:
+                out.append(("dropped-only-if-the-permuted-denominator-vanishes", z3.And(dp == 0, d0 != 0)))
+                continue
+            v = result.d[p]
+            if v is None:
+                out.append(("None-iff-the-permutation-changes-the-denominator",
+                            z3.And(d0 - dp != 0, d0 + dp != 0)))
+            else:
+                out.append(("factor-times-the-sign-of-the-denominator",
+                            z3.Or(z3.And(d0 - dp == 0, term(v) == f), z3.And(d0 - dp != 0, d0 + dp == 0, term(v) == -f))))
+        return out
